@@ -1,11 +1,139 @@
 /-
   C13 — HMM hit refinement keeps the best non-overlapping hits, order-independently.
-  Property theorems only; helper lemmas live in ASV/Proofs/Refine*.lean.
+  Property theorems only; helper lemmas live in ASV/Proofs/{Sort,Refine*,HitFilter*}.lean.
+
+  Every statement is for all hit lists (any length, equal starts, equal scores, nested and chained
+  overlaps, duplicates), all profile-length tables and both modes of `refine_hmmscan_results`.
+  The model is the code with fixes D11, D22, D25, D26, D27 applied (see design/C13.md).
 -/
-import ASV.Spec.Refine
-import ASV.Spec.HitFilter
+import ASV.Proofs.RefineCover
+import ASV.Proofs.RefineIncomplete
 namespace ASV.C13
 open ASV ASV.Refine
+
+/-! ## refinement (`hmmscan_refinement.refine_hmmscan_results`, one protein) -/
+
+/-- **order independence** — the heart of the property (reused by C17): the result depends only
+    on the *set* of raw hits, not on the enumeration `gather_by_query`'s set happens to produce -/
+theorem refine_enumeration_invariant (env : Env) (nb : Bool) (l₁ l₂ : List Hit)
+    (h : ∀ x, x ∈ l₁ ↔ x ∈ l₂) : refine env nb l₁ = refine env nb l₂ := by
+  simp only [refine, beforeIncomplete, sortHits_eq_of_same_set h]
+
+/-- the same for every permutation of the input list -/
+theorem refine_perm_invariant (env : Env) (nb : Bool) (l₁ l₂ : List Hit) (h : l₁.Perm l₂) :
+    refine env nb l₁ = refine env nb l₂ :=
+  refine_enumeration_invariant env nb l₁ l₂ (fun _ => h.mem_iff)
+
+/-- the sorted enumeration itself is canonical (what C17 needs): a permutation-invariant,
+    duplicate-free list with the same members -/
+theorem sortHits_canonical (l₁ l₂ : List Hit) (h : l₁.Perm l₂) :
+    sortHits l₁ = sortHits l₂ ∧ (sortHits l₁).Nodup ∧ ∀ x, x ∈ sortHits l₁ ↔ x ∈ l₁ :=
+  ⟨sortHits_eq_of_same_set (fun _ => h.mem_iff), sortHits_nodup l₁, fun _ => mem_sortHits⟩
+
+/-- the returned hits are ordered by position -/
+theorem refine_sorted (env : Env) (nb : Bool) (l : List Hit) : sortedByStart (refine env nb l) = true :=
+  (sortedByStart_iff _).mpr (refine_sorted' env nb l)
+
+/-- every returned hit is an input hit or the merge of same-profile input fragments close enough
+    to be one domain: it spans them exactly and carries their best e-value and score -/
+theorem refine_provenance (env : Env) (nb : Bool) (l : List Hit) :
+    ∀ o ∈ refine env nb l, ∃ F, (∀ f ∈ F, f ∈ l) ∧ isMergeOf env F o = true := by
+  intro o ho
+  obtain ⟨F, hF, hm⟩ := refine_from env nb l o ho
+  exact ⟨F, hF, isMergeOf_of env hm⟩
+
+/-- the full sentence "no two returned hits overlap by more than 20 % of the longer profile" -/
+def NoExcessOverlap : Prop :=
+  ∀ (env : Env) (nb : Bool) (l : List Hit), noExcessOverlap env (refine env nb l) = true
+
+/-- it is false for the greedy pass (D12, KF-C13-greedy-overlap): profiles of length 100, 300, 100;
+    `[0,100)`/50 and `[60,160)`/20 are both returned although they share 40 > 20 residues -/
+theorem noExcessOverlap_fails : ¬ NoExcessOverlap := by
+  intro h
+  have := h { len := fun p => if p = 1 then 300 else 100 } false
+    [⟨0, 0, 100, 1, 500⟩, ⟨1, 50, 300, 1, 100⟩, ⟨2, 60, 160, 1, 200⟩]
+  revert this
+  decide
+
+/-- what holds for every input: any two returned hits `a` before `b` satisfy
+    `b.start ≥ a.end − 0.2·M` for any `M` bounding the profile lengths of the input hits
+    (in particular they share at most 20 % of the longest profile involved) -/
+theorem refine_margin_longest_profile (env : Env) (nb : Bool) (l : List Hit) (m5 : Int)
+    (hl : ∀ h ∈ l, env.len h.prof ≤ m5) : allStartClearBy m5 (refine env nb l) = true :=
+  (allStartClearBy_iff _ _).mpr (refine_clearBy env nb m5 l hl)
+
+/-- H: all input hits belong to profiles of one length.  Then the exact rule holds between *any*
+    two returned hits, in the code's strong form (measured to the end of the earlier hit) … -/
+theorem refine_starts_clear_partial (env : Env) (nb : Bool) (l : List Hit) (len : Int)
+    (hl : ∀ h ∈ l, env.len h.prof = len) : allStartClear env (refine env nb l) = true := by
+  simp only [allStartClear, pairwiseB_iff]
+  exact refine_startClear_uniform env nb len l hl
+
+/-- … and therefore in the property's form -/
+theorem refine_no_excess_overlap_partial (env : Env) (nb : Bool) (l : List Hit) (len : Int)
+    (hl : ∀ h ∈ l, env.len h.prof = len) : noExcessOverlap env (refine env nb l) = true := by
+  simp only [noExcessOverlap, pairwiseB_iff]
+  exact (refine_startClear_uniform env nb len l hl).imp (fun h => withinMargin_of_startsClear env _ _ h)
+
+/-! ## the greedy overlap pass (`_remove_overlapping`) -/
+
+/-- the pass only selects: its result is a sub-list of its input -/
+theorem removeOverlapping_selects (env : Env) (l : List Hit) : (removeOverlapping env l).Sublist l :=
+  removeOverlapping_sublist env l
+
+/-- a non-empty input (the only kind `refine` passes) never yields an empty result -/
+theorem removeOverlapping_nonempty (env : Env) (l : List Hit) (h : l ≠ []) : removeOverlapping env l ≠ [] :=
+  removeOverlapping_ne_nil env h
+
+/-- the literal sentence "a hit is dropped only if a returned hit that collides with it ranks at
+    least as high" -/
+def DroppedOnlyAgainstKept : Prop :=
+  ∀ (env : Env) (l : List Hit), sortedByStart l = true → droppedJustified env l (removeOverlapping env l) = true
+
+/-- false for the greedy pass (KF-C13-greedy-orphan): `[10,20)` loses to `[0,100)`, which is then
+    replaced by the better `[70,200)` — which does not touch `[10,20)` -/
+theorem droppedOnlyAgainstKept_fails : ¬ DroppedOnlyAgainstKept := by
+  intro h
+  have := h { len := fun _ => 100 } [⟨0, 0, 100, 1, 500⟩, ⟨1, 10, 20, 1, 100⟩, ⟨3, 70, 200, 1, 600⟩] (by decide)
+  revert this
+  decide
+
+/-- what holds for every input: a dropped hit lost a collision against a hit scoring at least as
+    high, which is returned or lost in the same way, …, ending at a returned hit -/
+theorem removeOverlapping_dropped_chain (env : Env) (l : List Hit) : ∀ d ∈ l,
+    d ∈ removeOverlapping env l ∨ ∃ k ∈ removeOverlapping env l, Dominated env d k ∧ d.sc ≤ k.sc := by
+  intro d hd
+  rcases removeOverlapping_dominated env l d hd with h | ⟨k, hk, hdom⟩
+  · exact Or.inl h
+  · exact Or.inr ⟨k, hk, hdom, hdom.score_le⟩
+
+/-! ## why a hit is missing from the result -/
+
+/-- every input hit is accounted for before the incomplete-fragment rule: it lies inside a
+    same-profile hit `m` (itself or the merge it went into, with at least its score) that reaches
+    that rule, or `m` lost a chain of collisions ending in a hit that reaches it (neighbour mode:
+    inside a merged hit that reaches it) -/
+theorem refine_accounts_for_every_hit (env : Env) (nb : Bool) (l : List Hit) : ∀ x ∈ l,
+    (∃ m ∈ beforeIncomplete env nb l, covers m x = true) ∨
+    (∃ m k, covers m x = true ∧ Dominated env m k ∧ ∃ o ∈ beforeIncomplete env nb l, covers o k = true) := by
+  intro x hx
+  rcases beforeIncomplete_accounts env nb l x hx with ⟨m, hm, hc⟩ | ⟨m, k, hc, hd, o, ho, hco⟩
+  · exact Or.inl ⟨m, hm, (covers_iff m x).mpr hc⟩
+  · exact Or.inr ⟨m, k, (covers_iff m x).mpr hc, hd, o, ho, (covers_iff o k).mpr hco⟩
+
+/-- … and the last stage is exactly the documented rule: all hits covering more than half of
+    their profile if there is one; else the first hit with the largest share if that exceeds a
+    third; else the first regulator hit; else nothing -/
+theorem removeIncomplete_rule (env : Env) (l : List Hit) (hl : ∀ h ∈ l, 0 < env.len h.prof) :
+    removeIncomplete env l = specIncomplete env l :=
+  removeIncomplete_eq_spec env l hl
+
+/-- so `refine` is that rule applied to the accounted-for list -/
+theorem refine_is_rule_of_survivors (env : Env) (nb : Bool) (l : List Hit) (hl : ∀ p, 0 < env.len p) :
+    refine env nb l = specIncomplete env (beforeIncomplete env nb l) :=
+  removeIncomplete_eq_spec env _ (fun h _ => hl h.prof)
+
+/-! ## docking domains -/
 
 /-- docking-domain predictions survive exactly when they touch the first or last 50 residues -/
 theorem docking_filter_spec (env : Env) (L : Int) (hits : List Hit) (wf : ∀ h ∈ hits, h.qs ≤ h.qe) :
@@ -18,5 +146,46 @@ theorem docking_filter_spec (env : Env) (L : Int) (hits : List Hit) (wf : ∀ h 
   have h2 : min h.qs h.qe = h.qs := by omega
   simp only [dockKeep, specDockKeep, h1, h2]
   cases env.dock h.prof <;> simp [Bool.or_comm]
+
+/-! ## non-vacuity: concrete inputs on which the interesting branches fire -/
+
+/-- three profiles: 0 and 1 of length 100, 2 ("regulator") of length 30 -/
+def exEnv : Env where
+  len := fun p => if p = 2 then 30 else 100
+  reg := fun p => p == 2
+
+/-- default mode: two fragments of profile 0 merge (span 0..120 < 150, best score, best e-value),
+    the weaker overlapping hit of profile 1 is dropped, whatever the enumeration -/
+example : refine exEnv false [⟨1, 50, 140, 3, 200⟩, ⟨0, 70, 120, 1, 400⟩, ⟨0, 0, 60, 2, 300⟩] =
+    [⟨0, 0, 120, 1, 400⟩] := by decide
+example : refine exEnv false [⟨0, 0, 60, 2, 300⟩, ⟨0, 70, 120, 1, 400⟩, ⟨1, 50, 140, 3, 200⟩] =
+    [⟨0, 0, 120, 1, 400⟩] := by decide
+example : isMergeOf exEnv [⟨0, 0, 60, 2, 300⟩, ⟨0, 70, 120, 1, 400⟩] ⟨0, 0, 120, 1, 400⟩ = true := by decide
+/-- equal starts and equal scores (D11's shape): one answer for all six enumerations -/
+example : ([[⟨0, 0, 100, 1, 500⟩, ⟨1, 0, 100, 1, 500⟩, ⟨3, 0, 100, 1, 500⟩],
+            [⟨0, 0, 100, 1, 500⟩, ⟨3, 0, 100, 1, 500⟩, ⟨1, 0, 100, 1, 500⟩],
+            [⟨1, 0, 100, 1, 500⟩, ⟨0, 0, 100, 1, 500⟩, ⟨3, 0, 100, 1, 500⟩],
+            [⟨1, 0, 100, 1, 500⟩, ⟨3, 0, 100, 1, 500⟩, ⟨0, 0, 100, 1, 500⟩],
+            [⟨3, 0, 100, 1, 500⟩, ⟨0, 0, 100, 1, 500⟩, ⟨1, 0, 100, 1, 500⟩],
+            [⟨3, 0, 100, 1, 500⟩, ⟨1, 0, 100, 1, 500⟩, ⟨0, 0, 100, 1, 500⟩]] : List (List Hit)).map
+    (refine exEnv false) = List.replicate 6 [⟨0, 0, 100, 1, 500⟩] := by decide
+/-- exactly on the 20 % margin: start 80 = 100 − 0.2·100 is not a collision, 79 is -/
+example : refine exEnv true [⟨0, 0, 100, 1, 500⟩, ⟨1, 80, 180, 1, 400⟩] =
+    [⟨0, 0, 100, 1, 500⟩, ⟨1, 80, 180, 1, 400⟩] := by decide
+example : refine exEnv true [⟨0, 0, 100, 1, 500⟩, ⟨1, 79, 180, 1, 400⟩] = [⟨0, 0, 100, 1, 500⟩] := by decide
+/-- the incomplete rule's three stages -/
+example : removeIncomplete exEnv [⟨0, 0, 50, 1, 10⟩, ⟨1, 60, 111, 1, 10⟩] = [⟨1, 60, 111, 1, 10⟩] := by decide
+example : removeIncomplete exEnv [⟨0, 0, 34, 1, 10⟩, ⟨1, 60, 100, 1, 10⟩, ⟨0, 200, 240, 1, 10⟩] =
+    [⟨1, 60, 100, 1, 10⟩] := by decide
+example : removeIncomplete exEnv [⟨0, 0, 33, 1, 10⟩, ⟨2, 60, 61, 1, 10⟩] = [⟨2, 60, 61, 1, 10⟩] := by decide
+example : removeIncomplete exEnv [⟨0, 0, 33, 1, 10⟩] = [] := by decide
+/-- far-apart domains of one profile are both kept (D27) and a nested fragment does not shorten
+    the merge (D22) -/
+example : mergeDomainList exEnv [⟨0, 0, 90, 1, 10⟩, ⟨0, 300, 390, 1, 10⟩] =
+    [⟨0, 0, 90, 1, 10⟩, ⟨0, 300, 390, 1, 10⟩] := by decide
+example : mergeDomainList exEnv [⟨0, 0, 100, 2, 500⟩, ⟨0, 10, 50, 1, 600⟩] = [⟨0, 0, 100, 1, 600⟩] := by decide
+/-- a domination chain of length two (the orphan witness) -/
+example : Dominated { len := fun _ => 100 } ⟨1, 10, 20, 1, 100⟩ ⟨3, 70, 200, 1, 600⟩ :=
+  .trans (m := ⟨0, 0, 100, 1, 500⟩) (by decide) (.step (by decide))
 
 end ASV.C13
